@@ -123,6 +123,16 @@ class Ctx:
             return []
         cs = f.family_calls_to(pattern) if family else f.calls_to(pattern)
         n = len(cs)
+        want = exact if exact is not None else floor
+        if n < want and not family:
+            # helper extraction: a call to a local function every success path of which passes
+            # `pattern` (must-call summary, depth 3) counts as a site of `pattern`
+            summ = self._summary(pattern)
+            extra = [c for c in f.calls if c.callee in summ and not c.t.get('virt') and not f.blocks[c.bb]['c'] and c not in cs]
+            if extra:
+                cs = cs + extra
+                n = len(cs)
+                self.notes.append('%s: %d site(s) of %s in %s counted through must-call summaries' % (self.rule, len(extra), pattern, f.path))
         self.per_rule[self.rule]['sites'] += n
         pname = pattern if isinstance(pattern, str) else '|'.join(pattern)
         ok = n >= floor and (exact is None or n == exact)
@@ -168,6 +178,13 @@ class Ctx:
                 if hit or not edges:
                     self.violate('after-success|%s|%s|%s' % (f.path, a.desc, t.desc), 'AFTER-SUCCESS violated: %s reachable after %s without crossing its success edge' % (t.desc, a.desc), f, t.line,
                                  core.path_lines(f, core.find_path(f, t.bb, cut_edges=edges, start=(a.bb, 0))))
+
+    def _summary(self, pattern):
+        key = pattern if isinstance(pattern, str) else tuple(pattern)
+        cache = self.facts.__dict__.setdefault('_summaries', {})
+        if key not in cache:
+            cache[key] = core.must_call_set(self.facts, pattern, depth=3)
+        return cache[key]
 
     def stores(self, f, field, owner=None, family=False, floor=1, value=None):
         """statement points storing to `<owner>.<field>` (last projection = field)."""
@@ -221,8 +238,9 @@ class Ctx:
             return
         cb, cp = self._cuts(f, before)
         r = core.reach(f, start=(start.bb, start.idx) if start else None, cut_blocks=cb, cut_points=cp)
+        bkeys = {(b.bb, b.idx) for b in before}
         for t in after:
-            if t in before:
+            if (t.bb, t.idx) in bkeys:
                 continue
             hit = self._reached(f, r, t)
             desc = what or ('%s before %s' % (before[0].desc, t.desc))
@@ -278,6 +296,10 @@ class Ctx:
         passes one of the `through` points (or a call to a function in `summaries`)."""
         if f is None:
             return
+        if start is not None and any((p.bb, p.idx) == (start.bb, start.idx) for p in through):
+            # the start point is itself one of the required points (helper extraction)
+            self._ob(True, self.sample('must-pass', f, start.line, what or 'start is the required point'))
+            return
         cb, cp = self._cuts(f, through)
         if summaries:
             for c in f.calls:
@@ -315,6 +337,11 @@ class Ctx:
             names = core.alt_names(path)
             hit = [e for e in expected if core.name_matches(e, names)]
             ok = bool(hit)
+            if not ok and self._only_reached_from(path, expected, 3):
+                # an extracted helper: every (transitive, depth<=3) caller of the new caller is a
+                # confirmed caller, so no new entry path to the callee exists
+                ok = True
+                self.notes.append('%s: %s accepted as a helper of confirmed callers of %s' % (self.rule, path, cname))
             self._ob(ok, self.sample('caller', sites[0].fn, sites[0].line, '%s calls %s' % (path, cname)))
             if ok:
                 matched.update(hit)
@@ -328,6 +355,22 @@ class Ctx:
                 self.violate('lost-caller|%s|%s' % (cname, e),
                              'WHO-MAY-CALL: confirmed caller `%s` of `%s` no longer calls it (floor)' % (e, cname))
         return got
+
+    def _only_reached_from(self, path, expected, depth):
+        f = self.facts.fns.get(path)
+        if f is None or f.vis == 'pub':
+            return False
+        cs = self.facts.callers_of(path)
+        cs = {p: v for p, v in cs.items() if p != path}
+        if not cs:
+            return False
+        for p in cs:
+            if any(core.name_matches(e, core.alt_names(p)) for e in expected):
+                continue
+            if depth > 1 and self._only_reached_from(p, expected, depth - 1):
+                continue
+            return False
+        return True
 
     def no_reach(self, roots, targets, what=None):
         """NO-REACH: no function matching `targets` is reachable in the call graph from roots."""
